@@ -3,7 +3,8 @@
    StringProofs.v. *)
 From Coq Require Import List NArith ZArith Bool Lia Wf_nat.
 From NB Require Import Base.Res Base.Json Base.PyStr Diff.DiffFormat Diff.Patch Diff.Lcs Diff.GenericDiff
-     Diff.Wf Diff.PatchProofs Diff.SeqProofs Diff.LoopProofs Diff.LcsProofs Diff.SnakesProofs Diff.DictProofs.
+     Diff.Wf Diff.PatchProofs Diff.SeqProofs Diff.LoopProofs Diff.LcsProofs Diff.SnakesProofs Diff.DictProofs
+     Diff.WfProofs Diff.DictWf.
 Import ListNotations.
 
 (* ---------- small facts ---------- *)
@@ -77,7 +78,8 @@ Section Master.
   Hypothesis Hpred : hd PEq (c_generic_pred cfg) = PStrictEq.
   (* strings: line diff then (flattened) patch gives the target *)
   Hypothesis Hstr : forall n m s t, 0 < n -> 1 < m ->
-    exists d, diff_strings_linewise O cfg n s t = Ok d /\ patch m (JStr s) d = Ok (JStr t).
+    exists d, diff_strings_linewise O cfg n s t = Ok d /\ patch m (JStr s) d = Ok (JStr t)
+              /\ wf_lines (splitlines s) d = true.
 
   Lemma diff_default_arr n l m0 :
     diff_default O cfg (S (S n)) (JArr l) (JArr m0) =
@@ -103,16 +105,19 @@ Section Master.
 
   Theorem diff_default_roundtrip : forall n a b,
     2 * depth a < n -> wfj a = true -> wfj b = true -> same_container a b ->
-    exists d, diff_default O cfg n a b = Ok d /\ (forall m, depth a < m -> patch m a d = Ok b).
+    exists d, diff_default O cfg n a b = Ok d /\ (forall m, depth a < m -> patch m a d = Ok b)
+              /\ (forall f, depth a < f -> wf_diff f a d = true).
   Proof.
     induction n as [n IH] using lt_wf_ind. intros a b Hn Hwa Hwb [Hk Hc].
     destruct n as [|n']; [lia|].
     destruct a as [| | | |s|l|ka]; try discriminate; destruct b as [| | | |t|m0|kb]; try discriminate.
     - (* strings *)
       rewrite diff_default_str. cbn [depth] in Hn.
-      destruct (Hstr n' 3 s t ltac:(lia) ltac:(lia)) as (d & Hd & _).
-      exists d. split; [exact Hd|]. intros m Hm. cbn [depth] in Hm.
-      destruct (Hstr n' m s t ltac:(lia) ltac:(lia)) as (d' & Hd' & Hp'). congruence.
+      destruct (Hstr n' 3 s t ltac:(lia) ltac:(lia)) as (d & Hd & _ & Hw).
+      exists d. split; [exact Hd|]. split.
+      + intros m Hm. cbn [depth] in Hm.
+        destruct (Hstr n' m s t ltac:(lia) ltac:(lia)) as (d' & Hd' & Hp' & _). congruence.
+      + intros f Hf. destruct f as [|f']; [lia|]. cbn [wf_diff]. exact Hw.
     - (* lists *)
       destruct n' as [|n'']; [cbn [depth] in Hn; lia|]. rewrite diff_default_arr. rewrite Hpred. change (eval_pred O PStrictEq) with json_eqb.
       unfold diff_sequence_bruteforce.
@@ -133,7 +138,7 @@ Section Master.
         unfold pair_ok, subdiff. destruct (is_container x) eqn:Cx.
         - assert (Hin : In x l) by (eapply nth_error_In; eauto).
           pose proof (depth_in_arr l x Hin) as Hd.
-          destruct (IH n'' ltac:(lia) x x) as (d & Hd1 & Hd2).
+          destruct (IH n'' ltac:(lia) x x) as (d & Hd1 & Hd2 & _).
           + cbn [depth] in Hn, Hd |- *. lia.
           + exact (wfj_in_arr l x Hwa Hin).
           + exact (wfj_in_arr l x Hwa Hin).
@@ -141,10 +146,57 @@ Section Master.
           + exists d. split; [exact Hd1|]. destruct d; [reflexivity|]. apply Hd2. lia.
         - exists []. split; reflexivity. }
       destruct (Hloop (depth (JArr l)) (le_n _)) as (d0 & Hd0 & _).
-      exists d0. split; [exact Hd0|].
-      intros m Hm. destruct m as [|m']; [lia|]. cbn [patch].
-      destruct (Hloop m' ltac:(lia)) as (d' & Hd' & Hp'). rewrite Hd0 in Hd'. inversion Hd'; subst d'.
-      rewrite Hp'. reflexivity.
+      exists d0. split; [exact Hd0|]. split.
+      + intros m Hm. destruct m as [|m']; [lia|]. cbn [patch].
+        destruct (Hloop m' ltac:(lia)) as (d' & Hd' & Hp'). rewrite Hd0 in Hd'. inversion Hd'; subst d'.
+        rewrite Hp'. reflexivity.
+      + intros f Hf. destruct f as [|f']; [lia|]. cbn [wf_diff].
+        set (pok := fun (k : nat) (dd : list dentry) =>
+                      match nth_error l k with
+                      | Some x => is_container x && negb (Nat.eqb (length dd) 0) && wf_diff f' x dd
+                      | None => false end).
+        (* the shallow diff is an aligned script (with respect to any patch fuel) *)
+        destruct (diff_from_lcs_aligned (patch (depth (JArr l))) subdiff l m0 ai bi 0 0 0 0 []) as (tail & Ht & Hal); auto.
+        { eapply valid_idx_of_inc; [|exact Hinc|lia|lia].
+          intros i j Hcmp. pose proof (cmp_at_bounds json_eqb l m0 i j Hcmp) as [Hi Hj].
+          split; [exact Hi|]. split; [exact Hj|].
+          intros k Hk0. replace k with 0 by lia. rewrite !Nat.add_0_r.
+          unfold cmp_at in Hcmp. destruct (nth_error l i) as [x|] eqn:Ex; [|discriminate].
+          destruct (nth_error m0 j) as [y|] eqn:Ey; [|discriminate].
+          apply json_eqb_eq in Hcmp. subst y. exists x, x. split; [reflexivity|]. split; [reflexivity|].
+          unfold pair_ok, subdiff. destruct (is_container x) eqn:Cx.
+          - assert (Hin : In x l) by (eapply nth_error_In; eauto).
+            pose proof (depth_in_arr l x Hin) as Hd.
+            destruct (IH n'' ltac:(lia) x x) as (d & Hd1 & Hd2 & _).
+            + cbn [depth] in Hn, Hd |- *. lia.
+            + exact (wfj_in_arr l x Hwa Hin).
+            + exact (wfj_in_arr l x Hwa Hin).
+            + split; [reflexivity | exact Cx].
+            + exists d. split; [exact Hd1|]. destruct d; [reflexivity|]. apply Hd2. lia.
+          - exists []. split; reflexivity. }
+        { intros k Hk0. lia. }
+        { constructor. }
+        rewrite Ht in Hd0. cbn [app] in Hd0. cbn in Hal.
+        apply (diff_lists_loop_wf l m0 vl_is_list pok (fun _ _ => eq_refl) (patch (depth (JArr l))) subdiff tail 0 0 0 [] d0 Hal).
+        * (* every non-empty sub-diff is an admissible nested patch *)
+          intros i j nn k x y cd Hkk Hx Hy Hsd Hne. unfold pok. rewrite Hx.
+          unfold subdiff in Hsd. destruct (is_container x) eqn:Cx; [|inversion Hsd; congruence].
+          assert (Hinx : In x l) by (eapply nth_error_In; eauto).
+          assert (Hiny : In y m0) by (eapply nth_error_In; eauto).
+          pose proof (depth_in_arr l x Hinx) as Hdx.
+          assert (Hkind : kind_of x = kind_of y).
+          { destruct n'' as [|n3]; [discriminate|]. destruct x; try discriminate; destruct y; try discriminate; reflexivity. }
+          destruct (IH n'' ltac:(lia) x y) as (d & Hd1 & _ & Hd3).
+          -- cbn [depth] in Hn, Hdx |- *. lia.
+          -- exact (wfj_in_arr l x Hwa Hinx).
+          -- exact (wfj_in_arr m0 y Hwb Hiny).
+          -- split; assumption.
+          -- rewrite Hsd in Hd1. inversion Hd1; subst d.
+             rewrite (Hd3 f' ltac:(cbn [depth] in Hf, Hdx; lia)).
+             destruct cd; [congruence | reflexivity].
+        * exists 0, true. split; [reflexivity | lia].
+        * intros _. apply Wfb_init.
+        * exact Hd0.
     - (* objects *)
       rewrite diff_default_obj.
       pose proof (wfj_obj_sorted _ Hwa) as Sa. pose proof (wfj_obj_sorted _ Hwb) as Sb.
@@ -159,7 +211,7 @@ Section Master.
         pose proof (depth_in_obj _ _ _ Hva) as Hdv.
         destruct (kind_eqb (kind_of va) (kind_of vb) && is_container va) eqn:Ck.
         - apply andb_true_iff in Ck as [Ck1 Ck2]. apply kind_eqb_eq in Ck1.
-          destruct (IH n' ltac:(lia) va vb) as (d & Hd1 & Hd2).
+          destruct (IH n' ltac:(lia) va vb) as (d & Hd1 & Hd2 & _).
           + cbn [depth] in Hn, Hdv |- *. lia.
           + exact (wfj_in_obj ka k va Hwa Hva).
           + exact (wfj_in_obj kb k vb Hwb Hvb).
@@ -173,17 +225,38 @@ Section Master.
           + apply json_eqb_eq in E. eexists. split; [reflexivity|]. left. auto.
           + eexists. split; [reflexivity|]. right. right. reflexivity. }
       destruct (dict_diff_roundtrip (patch (depth (JObj ka))) on_common ka kb Sa Sb (Hcommon _ (le_n _))) as (d0 & Hd0 & _).
-      exists d0. split; [exact Hd0|].
-      intros m Hm. destruct m as [|m']; [lia|]. cbn [patch].
-      destruct (dict_diff_roundtrip (patch m') on_common ka kb Sa Sb (Hcommon m' ltac:(lia))) as (d' & Hd' & Hp').
-      rewrite Hd0 in Hd'. inversion Hd'; subst d'. rewrite Hp'. reflexivity.
+      exists d0. split; [exact Hd0|]. split.
+      + intros m Hm. destruct m as [|m']; [lia|]. cbn [patch].
+        destruct (dict_diff_roundtrip (patch m') on_common ka kb Sa Sb (Hcommon m' ltac:(lia))) as (d' & Hd' & Hp').
+        rewrite Hd0 in Hd'. inversion Hd'; subst d'. rewrite Hp'. reflexivity.
+      + intros f Hf. destruct f as [|f']; [lia|]. rewrite wf_diff_obj.
+        unfold dict_diff in Hd0.
+        apply (dict_walk_wf (wf_diff f') on_common ka _ ka kb d0 None Hd0 Sa Sb).
+        * intros k va Hva. exact Hva.
+        * intros k Hkk. left. unfold obj_has in Hkk. destruct (obj_get k ka) eqn:E; [|discriminate]. eapply obj_get_in; eauto.
+        * exact I.
+        * exact I.
+        * intros k va vb Hva Hvb es Hes. unfold on_common in Hes.
+          pose proof (depth_in_obj _ _ _ Hva) as Hdv.
+          destruct (kind_eqb (kind_of va) (kind_of vb) && is_container va) eqn:Ck.
+          -- apply andb_true_iff in Ck as [Ck1 Ck2]. apply kind_eqb_eq in Ck1.
+             destruct (IH n' ltac:(lia) va vb) as (d & Hd1 & _ & Hd3).
+             ++ cbn [depth] in Hn, Hdv |- *. lia.
+             ++ exact (wfj_in_obj ka k va Hwa Hva).
+             ++ exact (wfj_in_obj kb k vb Hwb Hvb).
+             ++ split; assumption.
+             ++ rewrite Hd1 in Hes. cbn [bind] in Hes. destruct d as [|e dd']; [inversion Hes; left; reflexivity|].
+                inversion Hes; subst es. right. left. exists (e :: dd'). split; [reflexivity|]. split; [exact Ck2|]. split; [discriminate|].
+                apply Hd3. cbn [depth] in Hf, Hdv. lia.
+          -- rewrite Hstrict in Hes. cbn [value_eqb] in Hes.
+             destruct (json_eqb va vb); inversion Hes; [left; reflexivity | right; right; reflexivity].
   Qed.
 
   Corollary diff_default_empty_only_if_equal n a b :
     2 * depth a < n -> wfj a = true -> wfj b = true -> same_container a b ->
     diff_default O cfg n a b = Ok [] -> a = b.
   Proof.
-    intros Hn Hwa Hwb Hs Hd. destruct (diff_default_roundtrip n a b Hn Hwa Hwb Hs) as (d & Hd' & Hp).
+    intros Hn Hwa Hwb Hs Hd. destruct (diff_default_roundtrip n a b Hn Hwa Hwb Hs) as (d & Hd' & Hp & _).
     rewrite Hd in Hd'. inversion Hd'; subst d. specialize (Hp (S (depth a)) ltac:(lia)).
     rewrite patch_nil in Hp; [congruence | lia | exact Hwa | apply Hs].
   Qed.
